@@ -95,6 +95,7 @@ func checkC08(c *Ctx) {
 	checkRouteClash(c, "C08.R1.route-clash", gen)
 	checkLoopTotality(c, "C08.R6.loop-totality", gen, "generator", 20, generatorLoopExits)
 	checkArgumentRoles(c, "C08.R7.argument-roles", gen, "generator", 10)
+	checkGenOptsNotCopied(c, "C08.R4.options-shared", gen)
 	checkRangeFilters(c, "C08.R6.range-filters", ev, reviewedRangeFilters, 25)
 	checkOperationIdentity(c, gen)
 	checkOperationDedup(c, gen)
@@ -621,4 +622,73 @@ var generatorLoopExits = map[string]string{
 	"generator.schemaGenContext.buildAllOf › loop over spec.Schema #1 › conditional store #2":       "(‹generator.resolvedType›.IsAnonymous && len(‹spec.Schema›.AllOf) > 0) || (‹spec.Schema›.Ref.String() == \"\" && !‹generator.resolvedType›.IsComplexObject && (‹generator.resolvedType›.IsArray || ‹generator.resolvedType›.IsInterface || ‹generator.resolvedType›.IsPrimitive)) ⇒ arm of $ref'ed members (the other members are appended at the end of the iteration)",
 	"generator.schemaGenContext.buildProperties › loop over spec.Schema #1 › conditional store #1":  "‹generator.resolvedType›.IsComplexObject && ‹generator.resolvedType›.IsAnonymous && len(‹spec.Schema›.Properties) > 0 ⇒ an anonymous complex property gets its own struct, recorded among the extra schemas",
 	"generator.sortedResponses › loop over spec.Response #1 › conditional store #1":                 "‹int› > 0 ⇒ status codes only: the default response (code ≤ 0) is handled separately",
+}
+
+
+// checkGenOptsNotCopied: GenOpts carries the registry of files written so far (the collision
+// check) and is handed around by pointer; a copy made before the registry exists gets a registry of
+// its own, and two objects mangled to one file name are no longer told apart.
+func checkGenOptsNotCopied(c *Ctx, rule string, gen *packages.Package) {
+	c.Rule(rule, "GenOpts is never copied by value (`x := *opts`, a GenOpts-typed composite copy): every generator of a run shares the one registry of written files", 1)
+	info := gen.TypesInfo
+	obj := gen.Types.Scope().Lookup("GenOpts")
+	if obj == nil {
+		c.Anchor(rule, "generator.GenOpts", "not found")
+		return
+	}
+	hasRegistry := false
+	var look func(t types.Type, depth int)
+	look = func(t types.Type, depth int) {
+		st, _ := t.Underlying().(*types.Struct)
+		if st == nil || depth > 3 {
+			return
+		}
+		for i := 0; i < st.NumFields(); i++ {
+			f := st.Field(i)
+			if _, isMap := f.Type().Underlying().(*types.Map); isMap && strings.Contains(strings.ToLower(f.Name()), "target") {
+				hasRegistry = true
+			}
+			if f.Embedded() {
+				look(f.Type(), depth+1)
+			}
+		}
+	}
+	look(obj.Type(), 0)
+	c.Check(hasRegistry, rule, "generator.GenOpts › carries the registry of written targets", c.posOf(gen, obj.Pos()), "a map-typed field holds the targets written so far", "GenOpts no longer carries the registry of written files: this rule has nothing to protect (review it)")
+	for _, fd := range load.AllFuncs(gen) {
+		fd := fd
+		ast.Inspect(fd.Body, func(n ast.Node) bool {
+			se, ok := n.(*ast.StarExpr)
+			if !ok {
+				return true
+			}
+			tv, ok := info.Types[se]
+			if !ok || !tv.IsValue() {
+				return true
+			}
+			if goan.NamedName(tv.Type) != "GenOpts" {
+				return true
+			}
+			// a dereference used as a value: is it being copied (assigned, passed, put in a literal) rather than selected from?
+			copied := true
+			ast.Inspect(fd.Body, func(m ast.Node) bool {
+				if sel, ok := m.(*ast.SelectorExpr); ok && ast.Unparen(sel.X) == ast.Expr(se) {
+					copied = false
+				}
+				if as, ok := m.(*ast.AssignStmt); ok {
+					for _, l := range as.Lhs {
+						if ast.Unparen(l) == ast.Expr(se) {
+							copied = false // *p = v stores into the shared value
+						}
+					}
+				}
+				return true
+			})
+			if copied {
+				c.Bad(rule, fmt.Sprintf("generator.%s › %s copied by value", load.FuncName(fd), goan.ExprString(se)), c.posOf(gen, se.Pos()),
+					"GenOpts is copied by value: the copy has its own (possibly nil) registry of written files, so the collision check no longer sees what the other generators of the run wrote")
+			}
+			return true
+		})
+	}
 }
